@@ -17,13 +17,35 @@ def gen_dense_formula(rng, nv, depth, future=True):
     return even(g.formula(depth))
 
 
+def timed_vars(f, under=False):
+    """variables that occur beneath a bounded temporal operator"""
+    if f[0] == 'var':
+        return {f[1]} if under else set()
+    u = under or f[0] in fml.TUN or f[0] in fml.TBIN
+    out = set()
+    for c in fml.children(f):
+        out |= timed_vars(c, u)
+    return out
+
+
+def gen_samples(rng, bad=False):
+    n = rng.choice([0, 1, 1, 2, 3, 4, 5, 6])
+    t = rng.choice([0, 0, 0, 1, 2, 5])
+    out = []
+    for _ in range(n):
+        out.append([t, rng.randint(-3, 3)])
+        t += rng.choice([0, 0, -1, 1, 2]) if bad else rng.choice([1, 1, 2, 3, 5])
+    return out
+
+
 class C04(Check):
     PID = 'C04'
     RULE = ('seeded random dense-time formulas (arithmetic, comparisons, Boolean, bounded/unbounded once/historically/eventually/always/since/until) x '
             'piecewise-constant signals with 1-6 samples per variable, unaligned break-points, windows longer than the signal, results starting with +-inf; '
             'the returned sample list must have non-decreasing stamps, start at the start of the common domain and, as a right-continuous step function, '
-            'equal the naive dense-time evaluator Dn (Dense.v) at every break-point and mid-point of the domain; '
-            'non-trivial = temporal operator and >= 2 samples; distinct by (formula, signals)')
+            'equal the tick semantics rhoZ (DenseSem.v) at every tick of the domain (cross-checked against the naive evaluator Dn of Dense.v); '
+            'non-trivial = temporal operator and >= 2 samples; distinct by (formula, signals); plus direct calls of intersection(a, b, method) on random sample lists '
+            '(15% malformed: repeated/decreasing stamps) compared list-for-list, exception-for-None, with the proved model DenseMerge.isect')
 
     def gen_cases(self, rng, tier):
         cases = []
@@ -45,6 +67,11 @@ class C04(Check):
             nv = need_vars(f, nv)
             sigs = [dense.gen_signal(rng, start0=(rng.random() < 0.7)) for _ in range(nv)]
             cases.append({'f': f, 'nv': nv, 'sigs': sigs, 'n': max(len(s) for s in sigs)})
+        # the merge itself, called directly: intersection(a, b, method) against DenseMerge.isect
+        nm = 300 if tier == 'quick' else 6000
+        for i in range(nm):
+            bad = rng.random() < 0.15          # malformed stream: repeated or decreasing stamps
+            cases.append({'merge': rng.choice(['and', 'or', 'sub', 'add']), 'a': gen_samples(rng, bad), 'b': gen_samples(rng, bad and rng.random() < 0.5), 'n': 0})
         return cases
 
     def load_case(self, c):
@@ -52,9 +79,18 @@ class C04(Check):
         return c
 
     def model_lines(self, c):
-        return ['(dn std %s (%s))' % (fml.to_sx(c['f']), ' '.join(dense.sig_sx(s) for s in c['sigs']))]
+        if 'merge' in c:
+            sx = lambda l: '(' + ' '.join('(%d %d)' % (t, v) for t, v in l) + ')'
+            return ['(isect %d %s %s)' % (['and', 'or', 'sub', 'add'].index(c['merge']), sx(c['a']), sx(c['b']))]
+        used = fml.fvars(c['f'])
+        t0 = max(c['sigs'][i][0][0] for i in used)
+        tend = max(c['sigs'][i][-1][0] for i in used)
+        w = ' '.join(dense.sig_sx(s) for s in c['sigs'])
+        return ['(dn std %s (%s))' % (fml.to_sx(c['f']), w), '(rhoz std %s (%s) %d %d)' % (fml.to_sx(c['f']), w, t0, max(tend, t0))]
 
     def impl_cases(self, c):
+        if 'merge' in c:
+            return [{'monitor': 'dense-merge', 'op': c['merge'], 'a': c['a'], 'b': c['b']}]
         used = fml.fvars(c['f'])
         return [{'monitor': 'dense-offline', 'vars': fml.VARS[:c['nv']], 'spec': 'out = ' + dense.dense_formula_text(c['f']),
                  'calls': [['evaluate', [[fml.VARS[i], dense.to_impl(c['sigs'][i])] for i in used]]]}]
@@ -62,6 +98,18 @@ class C04(Check):
     def judge(self, c, mlines, ires):
         if mlines[0].startswith('ERROR'):
             return 'model-error', mlines[0]
+        if 'merge' in c:
+            r = ires[0]['calls'][0] if ires[0]['calls'] else ires[0]['setup']
+            if mlines[0] == 'ISECT BAD':
+                exp = {'status': 'rtamt'}
+                same = r['status'] == 'rtamt'
+            else:
+                exp = [[int(x.split(':')[0]), int(x.split(':')[1])] for x in mlines[0].split()[1:]]
+                same = r['status'] == 'ok' and [list(x) for x in r['value']] == exp
+            if same:
+                return 'ok', None
+            return 'violation', {'call': 'intersection(a, b, %s)' % c['merge'], 'a': c['a'], 'b': c['b'],
+                                 'expected': {'source': 'DenseMerge.isect (proved correct in DenseMergeCorrect.v)', 'value': exp}, 'observed': r}
         if not dense.dn_exact(mlines[0]):
             return 'dropped', None
         ref = dense.parse_dn(mlines[0])
@@ -87,26 +135,43 @@ class C04(Check):
             return 'model-error', 'empty reference'
         if out[0][0] != t0:
             return 'violation', dict(det, observed={'starts_at_tick': out[0][0], 'domain_starts_at_tick': t0})
-        diff = dense.compare_functions(ref, out, t0, end)
+        if mlines[1].startswith('ERROR'):
+            return 'model-error', mlines[1]
+        spec = dense.parse_rhoz(mlines[1], t0)
+        det['expected'] = {'source': 'rhoZ (DenseSem.v): the dense-time semantics at every tick of the domain', 'values_from_tick_%d' % t0: [fml.val_sx(spec[t]) for t in sorted(spec)]}
+        diff = dense.compare_ticks(spec, out, t0, end)
         if diff is not None:
             return 'violation', dict(det, observed=diff)
+        if dense.compare_ticks(spec, ref, t0, end) is not None:
+            return 'model-vs-spec', dict(det, note='the naive evaluator Dn disagrees with the tick semantics rhoZ', dn=ref)
         return 'ok', None
 
     def signature(self, c, detail):
+        if 'merge' in c:
+            return {'shape': 'merge', 'op': c['merge']}
         sig = Check.signature(self, c, detail)
         used = fml.fvars(c['f'])
         late = any(c['sigs'][i][0][0] != 0 for i in used if i < len(c['sigs']))
-        timed = bool(fml.ops(c['f']) & (fml.TUN | fml.TBIN))
-        sig['shape'] = 'late_start_bounded' if (late and timed) else ('late_start' if late else 'start_at_0')
+        late_timed = any(c['sigs'][i][0][0] != 0 for i in timed_vars(c['f']) if i < len(c['sigs']))
+        sig['shape'] = 'late_start_bounded' if late_timed else ('late_start' if late else 'start_at_0')
         return sig
 
     def nontrivial(self, c):
+        if 'merge' in c:
+            return len(c['a']) + len(c['b']) >= 3
         return bool(fml.ops(c['f']) & (fml.UN | fml.BIN | fml.TUN | fml.TBIN) - {'not', 'and', 'or', 'implies', 'iff', 'xor'}) and c['n'] >= 2
 
     def key(self, c):
+        if 'merge' in c:
+            return json.dumps(c, sort_keys=True)
         return json.dumps([fml.to_sx(c['f']), c['sigs']])
 
+    def features(self, c):
+        return ['merge:' + c['merge']] if 'merge' in c else Check.features(self, c)
+
     def describe(self, c):
+        if 'merge' in c:
+            return c
         return {'spec': 'out = ' + dense.dense_formula_text(c['f']), 'signals': [dense.to_impl(s) for s in c['sigs']]}
 
     def normalize(self, c):
